@@ -13,4 +13,5 @@ EXTRA = {
     # models by <Dir>/<Model>Src.v, property theorems restated in Props/<ID>Src.v
     "C13": (("gen_tables_tonal.py",), ()),     # Scale.get, Key.get/semitones/__contains__/nearest_note -> Tonal/KeySrc.v, Props/C13Src.v
     "C14": (("gen_tables_mult.py",), ()),      # isobar/util.py make_clock_multiplier -> Clock/MultiplierSrc.v, Props/C14Src.v
+    "C20": (("gen_tables_notation.py",), ()),  # isobar/notation/notation.py parse_notation -> Notation/ParserSrc.v, Props/C20Src.v
 }
